@@ -526,8 +526,8 @@ def _step(s: Ref, mn: str, ops: list) -> None:
             if W[b["name"]] != w:
                 raise Unjudged("compare_register_width_mismatch")
             vb = s.get(b["name"])
-            if w == 3 and va > PTR_MASK:
-                raise Unjudged("24bit_memory_vs_20bit_register")
+            # README: CMPP (m),r3 = (m..m+2) - r3: the three memory bytes against the (20-bit, zero-extended) register;
+            # a memory value with bits 20-23 set is simply greater than any r3 value
         else:
             vb = s.rval(s.resolve(b, w), w)
         s.setcz(c=va < vb, z=va == vb)
@@ -681,9 +681,8 @@ def _step(s: Ref, mn: str, ops: list) -> None:
             if sp + w > PTR_MASK:
                 raise Unjudged("pointer_wrap")
             v = s.load(sp, w)
-            if name in ("X", "Y") and v > PTR_MASK:
-                raise Unjudged("24bit_memory_into_20bit_register")
-            s.set(name, v)
+            # X/Y hold 20 bits: the fourth nibble of the three bytes popped is dropped
+            s.set(name, v & PTR_MASK if name in ("X", "Y") else v)
             s.set(sreg, sp + w)
             if name in ("U", "S"):
                 raise Unjudged("pop_into_stack_pointer")
